@@ -185,13 +185,28 @@ def mc_and_scripts(rep, cfgs, workers, timeout, max_scripts, rnd, probe=False):
     return cases
 
 
-def selftest_corrupt(ev):
-    out = [dict(e) for e in ev]
-    for e in out:
-        if e.get("ev") == "Resp" and not e.get("interim") and e.get("i", 0) >= 1:
-            e["ver"] = 10 if e["ver"] == 11 else 11
-            return out
-    return None
+def selftest_corrupt(pid):
+    """A corruption of a recorded trace that the clauses of `pid` must reject (binding self-test)."""
+    def f(ev):
+        out = [dict(e) for e in ev]
+        for n, e in enumerate(out):
+            if pid == "C02" and e.get("ev") == "Resp" and not e.get("interim") and e.get("i", 0) >= 1:
+                e["ver"] = 10 if e["ver"] == 11 else 11
+                return out
+            if pid in ("C01", "C03") and e.get("ev") == "Call":
+                e["tok"] = False
+                return out
+            if pid == "C04" and e.get("ev") == "Call":
+                out.insert(n + 1, {"ev": "Stall", "polls": 1, "t": e["t"]})
+                return out
+            if pid == "C05" and e.get("ev") == "Mem":
+                e["taken"] = e["taken"] + 50000000
+                return out
+            if pid == "C06" and e.get("ev") == "Resp" and e.get("status") == 408:
+                e["t"] = 0
+                return out
+        return None
+    return f
 
 
 def run_h1(rep, pid, mc_cfgs_quick, mc_cfgs_thorough, families, random_kwargs, n_random=(150, 2000), probe=False,
@@ -215,7 +230,7 @@ def run_h1(rep, pid, mc_cfgs_quick, mc_cfgs_thorough, families, random_kwargs, n
     for c in cases[:2] + rc[:1]:
         rep.sample({"origin": c.get("origin", "random"), "wire": c["wire"][:6], "steps": c["steps"][:12], "progs": {k: v for k, v in list(c["progs"].items())[:2]}})
     tpath = ar.run_cases(cases + rc, "all", timeout=2400)
-    ar.selftest(tpath, selftest_corrupt, "Resp.ver flipped")
+    ar.selftest(tpath, selftest_corrupt(pid), "one observation corrupted (per-property: Call.tok / Resp.ver / inserted Stall / Mem / Done.t)")
     rep.cov["model_scripts_replayed"] = n_model
     rep.assumptions += ["request/response bodies are pattern bytes; heads are generated from a fixed grammar (lib/h1gen.py)",
                         "the client-side response parser in the harness (RFC 7230 3.3.3) is trusted",
@@ -232,3 +247,132 @@ def replay_h1(rep, pid, path):
     rep.cov["distinct_nontrivial"] = 2
     rep.cov["states"] = max(rep.cov["states"], 1)
     rep.cov["transitions"] = max(rep.cov["transitions"], 1)
+
+
+# ---------------------------------------------------------------------------------------------
+# C06 (time) and C05 (memory) directed families
+# ---------------------------------------------------------------------------------------------
+def ticks(ms, slice_ms=250):
+    out = []
+    while ms > 0:
+        d = min(slice_ms, ms)
+        out.append({"tick": d})
+        ms -= d
+    return out
+
+
+def time_family(rnd, quick):
+    """C06: arrival instants of head bytes / requests / signal relative to the three timers, all timer configurations."""
+    cases = []
+    cfgs = []
+    for head in (0, 1000):
+        for ka in (0, 1000):
+            for disc in (0, 1000):
+                for half in (True, False):
+                    cfgs.append({"ka_ms": ka, "head_ms": head, "disc_ms": disc, "half_closed": half})
+    if quick:
+        cfgs = rnd.sample(cfgs, 8)
+    socks = [{}, {"shutdown": "never"}, {"budget": 0}] if not quick else [{}, {"shutdown": "never"}]
+    for cfg in cfgs:
+        for sock in socks:
+            two = [{"m": "GET"}, {"m": "GET"}]
+            progs = [ok_prog(read="none"), ok_prog(read="none")]
+            b1 = h1gen.assemble(two, progs, cfg=cfg, sock=sock, epilogue=False)
+            h1len = b1["gt"][0]["end"]
+            # (a) slow head: k bytes at time a, the rest at time b (before / at / after the head deadline)
+            for a, b in ((0, 500), (0, 900), (0, 1000), (0, 1100), (0, 1600), (400, 2500), (0, 99999)):
+                steps = ticks(a) + [{"seg": 5}] + (ticks(b - a) + [{"seg": b1["total"] - 5}] if b < 99999 else ticks(4000))
+                c = h1gen.assemble(two, progs, cfg=cfg, sock=sock, steps=steps, epilogue=True)
+                c["origin"] = "time/slow-head"
+                cases.append(c)
+            # (b) keep-alive: second request arrives d ms after the first response
+            for d in (100, 500, 900, 1000, 1100, 1700, 3000):
+                steps = [{"seg": h1len}] + ticks(d) + [{"seg": b1["total"] - h1len}] + ticks(3000)
+                c = h1gen.assemble(two, progs, cfg=cfg, sock=sock, steps=steps, epilogue=True)
+                c["origin"] = "time/keep-alive"
+                cases.append(c)
+            # (c) nothing ever arrives / idle after one request; partial second head during keep-alive
+            for steps in ([{"seg": h1len}] + ticks(4000), ticks(4000), [{"seg": h1len}] + ticks(500) + [{"seg": 3}] + ticks(4000)):
+                c = h1gen.assemble(two, progs, cfg=cfg, sock=sock, steps=list(steps), epilogue=True)
+                c["origin"] = "time/idle"
+                cases.append(c)
+    # (d) graceful shutdown signal at every point of a 3-request exchange with slow handlers
+    three = [{"m": "GET"}, {"m": "POST", "framing": {"k": "cl", "n": 4}}, {"m": "GET"}]
+    progs3 = [ok_prog(read="none", pend=1), ok_prog(read="all", pend=1, kind="body-stream"), ok_prog(read="none")]
+    progs3[1]["resp"]["body"] = {"k": "body-stream", "chunks": [3, 3], "pend": [0, 1]}
+    base_steps = [{"seg": 29}, {"h": 1}, {"seg": 60}, {"tick": 100}, {"h": 2}, {"b": 2}, {"seg": 1000}, {"tick": 100}]
+    for pos in range(len(base_steps) + 1):
+        for cfg in ({"graceful": True}, {"graceful": True, "disc_ms": 1000}, {"graceful": True, "ka_ms": 0}):
+            steps = base_steps[:pos] + [{"sig": 1}] + base_steps[pos:]
+            c = h1gen.assemble(three, progs3, cfg=cfg, steps=steps, epilogue=True)
+            c["origin"] = "time/graceful"
+            cases.append(c)
+    return cases
+
+
+def mem_family(rnd, quick):
+    """C05: peers that send much and consumers / sockets that take little; every scenario at input size X and 4X."""
+    cases = []
+    MB = 1 << 20
+    sizes = (1 * MB, 4 * MB) if quick else (1 * MB, 4 * MB, 16 * MB)
+    for total in sizes:
+        seg = 65536
+        for wbuf in ((0,) if quick else (0, 4096, 262144)):
+            base_cfg = {"mem": True, "quiet": True, "wbuf": wbuf, "head_ms": 0, "ka_ms": 0, "maxchunk": 16384}
+            # (1) huge declared body, handler holds the payload and never reads / reads one chunk per token
+            for read, npend in (("none", 1), ("n:3", 1)):
+                reqs = [{"m": "POST", "framing": {"k": "cl", "n": total}}]
+                progs = [{"pend": npend, "read": read, "keep": "handler", "pend2": 1, "resp": {"status": 200, "conn": "-", "body": {"k": "empty"}}}]
+                steps = [{"seg": seg} for _ in range(total // seg + 2)]
+                c = h1gen.assemble(reqs, progs, cfg=base_cfg, steps=steps, epilogue=False)
+                c["steps"] += [{"h": 1}, {"h": 1}, {"eof": 1}, {"tick": 600}]
+                c["origin"] = "mem/body-stuck-consumer"
+                cases.append(c)
+            # (2) chunked body of many chunks, consumer never reads
+            nch = total // 8192
+            reqs = [{"m": "POST", "framing": {"k": "chunked", "chunks": [8192] * nch}}]
+            progs = [{"pend": 1, "read": "none", "keep": "handler", "pend2": 0, "resp": {"status": 200, "conn": "-", "body": {"k": "empty"}}}]
+            c = h1gen.assemble(reqs, progs, cfg=base_cfg, steps=[{"seg": seg} for _ in range(total // seg + 40)], epilogue=False)
+            c["steps"] += [{"h": 1}, {"eof": 1}, {"tick": 600}]
+            c["origin"] = "mem/chunked-stuck-consumer"
+            cases.append(c)
+            # (3) head that never ends (one endless header line / endless header lines)
+            for filler in ("line", "lines"):
+                wire = [{"s": "GET /r1 HTTP/1.1\r\nhost: t\r\nx-a: "}, {"fill": [ord("a"), total]}] if filler == "line" else \
+                       [{"s": "GET /r1 HTTP/1.1\r\nhost: t\r\n"}] + [{"s": "x-h: " + "v" * 100 + "\r\n"} for _ in range(min(total // 107, 3000))]
+                c = h1gen.assemble([{"m": "GET"}], [ok_prog()], cfg=base_cfg, steps=[], epilogue=False)
+                c["wire"] = wire
+                tot = sum(len(p["s"]) if "s" in p else p["fill"][1] for p in wire)
+                c["total"] = tot
+                c["gt"][0].update({"bad": "hugehead", "wirelen": tot, "headlen": tot, "end": tot})
+                c["rej"] = {"at": 1, "off": 0, "detect": 131072, "cls": "hugehead", "status": 431, "kind": "head"}
+                c["steps"] = [{"seg": seg} for _ in range(tot // seg + 2)] + [{"tick": 600}]
+                c["origin"] = "mem/endless-head"
+                cases.append(c)
+            # (4) big streaming response body against a socket that accepts little
+            nchunks = total // 16384
+            reqs = [{"m": "GET"}]
+            progs = [{"pend": 0, "read": "none", "keep": "handler", "resp": {"status": 200, "conn": "-", "body": {"k": "body-stream", "chunks": [16384] * nchunks}}}]
+            c = h1gen.assemble(reqs, progs, cfg=base_cfg, sock={"budget": 0}, steps=[{"seg": 100}] + [{"w": 1000} for _ in range(50)], epilogue=False)
+            c["steps"] += [{"tick": 600}]
+            c["origin"] = "mem/slow-socket-streaming-response"
+            cases.append(c)
+        # (5) thousands of tiny pipelined requests against a stuck first handler / a socket that never accepts
+        nreq = total // 32
+        reqs = [{"m": "GET", "ver": 11, "target": "/r1"}]
+        cfg5 = {"mem": True, "quiet": True, "head_ms": 0, "ka_ms": 5000, "maxchunk": 16}
+        for stuck, sock in (("handler", {}), ("socket", {"budget": 0})):
+            progs = [{"pend": 1 if stuck == "handler" else 0, "read": "none", "keep": "handler", "resp": {"status": 200, "conn": "-", "body": {"k": "empty"}}}]
+            c = h1gen.assemble(reqs, progs, cfg=cfg5, sock=sock, steps=[], epilogue=False)
+            one = "GET /r1 HTTP/1.1\r\nhost: t\r\n\r\n"
+            c["wire"] = [{"s": one * 512} for _ in range(max(1, nreq // 512))]
+            c["total"] = sum(len(p["s"]) for p in c["wire"])
+            n = c["total"] // len(one)
+            c["gt"] = [dict(c["gt"][0], start=k * len(one), end=(k + 1) * len(one)) for k in range(min(n, 40))]
+            c["pf"] = [c["pf"][0]] * len(c["gt"])
+            c["methods"] = ["GET"] * n
+            c["steps"] = [{"seg": seg} for _ in range(c["total"] // seg + 2)] + [{"tick": 600}]
+            c["cfg"] = dict(c["cfg"], qallow=(196608 // len(one)) * 8192 if stuck == "handler" else 0)
+            c["origin"] = "mem/pipelined-tiny-requests-stuck-" + stuck
+            cases.append(c)
+    return cases
